@@ -745,7 +745,7 @@ def run(ctx):
     quick = ctx.quick()
     try:
         fixed_cases(ctx)
-        n_tab = 1300 if quick else 20000
+        n_tab = 1300 if quick else 2500
         for i in range(n_tab):
             t, route, hist = gen_table(rng, quick)
             ctx.count("history=" + hist)
@@ -776,9 +776,9 @@ def run(ctx):
             if rng.random() < 0.3:
                 check_del(ctx, ta.copy(), rng.choice([None, "default"]),
                           rng.choice(["sample", "observation", "whole", "bogus"]), (route, hist))
-        run_parse_stream(ctx, 4000 if quick else 100000)
-        run_raw_stream(ctx, 800 if quick else 15000)
-        n_cli = 700 if quick else 9000
+        run_parse_stream(ctx, 4000 if quick else 30000)
+        run_raw_stream(ctx, 800 if quick else 5000)
+        n_cli = 700 if quick else 2500
         for i in range(n_cli):
             friendly = (i % 4 == 3)
             if friendly:
